@@ -83,7 +83,7 @@ def guard_of(F, fid):
 def run(chk, F, tier):
     chk.rule("R12a", "name-dereferencing recursive components carry a recursion guard (or are audited as structural)")
     chk.rule("R12b", "clippy's unwrap_used / unwrap_in_result / panic / panic_in_result_fn hold for the library code")
-    chk.assume("termination of guarded fixpoints in bounded time, arithmetic panics and indexing/expect sites are not decided")
+    chk.assume("termination of guarded fixpoints in bounded time and arithmetic panics are not decided; expect/unwrap sites are clippy's (R12b)")
     chk.assume("guard presence is checked per recursive component, not per cycle inside a component")
     cg = callgraph.CallGraph(F)
     scope = {k for k, b in F.bodies.items() if b.crate == "emmylua_code_analysis" and b.kind in ("fn", "closure")
@@ -129,4 +129,9 @@ def run(chk, F, tier):
               % (len(errs), errs[0] if errs else "", locs[0] if locs else ""), locs[0][4:] if locs else None,
               witness={"errors": errs[:10], "locations": locs[:10]},
               sample={"rule": "R12b", "lints": ["unwrap_used", "unwrap_in_result", "panic", "panic_in_result_fn"], "verdict": "clean"})
-    chk.explanation = "SCCs of the crate's call graph classified by name lookups and guard operations; clippy run with the panic lints denied."
+    from rules import c12c
+    n, rec, aud = c12c.run_r12c(chk, F)
+    chk.floor("bounds-sensitive sites in the analysis crate", n, 200)
+    chk.floor("bounds-sensitive sites discharged by derived facts", rec, 120)
+    chk.explanation = ("SCCs of the crate's call graph classified by name lookups and guard operations; clippy run with the panic lints denied; "
+                       "bounds facts (lib/bounds.py) or audited reasons for every index/slice/positional operation.")
